@@ -37,6 +37,10 @@ CLAIMED = {
    "Every structural shape S(d,w) x 4 coordinate types x finite float classes at every rotation, plus the zero value of all 8 Go types: the AsText token stream is compared with one derived from the OGC BNF by an independent printer, AppendWKT with prefix+AsText, UnmarshalWKT(AsText) with the original by the structural walker on float bits and with the WKB decode, trailing tokens must be rejected, and every re-spelling inside a deviation bound is parsed back: each token boundary x each separator (pairs in thorough), global separator policies, keyword case, bare MultiPoint members, exponent-form and zero-padded numerals.",
    "Trust: refcodec/wkt.go (printer + lexer) and strconv's shortest formatting. Non-ASCII whitespace and case-insensitivity of Z/M/EMPTY are not claimed by the property and not explored.",
    "bounded-exhaustive enumeration of shapes x token-level re-spellings (deviation-bounded) on the real code against an independent reference printer", "4/C05"),
+ "C06": ("model_checking",
+   "Valid geometries: every structural shape S(d,w) x 4 coordinate types x finite float classes (polygons as cell squares under 8 float frames): MarshalJSON output is parsed by encoding/json, walked against the RFC 7946 schema, its numbers compared bit for bit with the XY(Z) ordinates, and the decode compared with a loss model (M dropped, empty Points omitted from MultiPoints, Z dropped only without positions); decoding into each of the 7 concrete types succeeds iff the type matches. Documents: every assignment of position lengths 0..5 to the positions of 6 type templates, member order, collection siblings deciding the document-wide dimension, 10 structural deviations, nulls. Features: ids x properties x foreign members x geometries and FeatureCollections of 0..2, malformed variants rejected.",
+   "Trust: encoding/json, refcodec/node.go, the loss model geojsonExpect in checks/c06.go. Foreign members named like reserved members (type, geometry, id, properties) are not foreign members and are excluded; non-finite ordinates are outside JSON.",
+   "bounded-exhaustive enumeration of shapes and of grammar-derived documents on the real code against a reference loss model", "4/C06"),
 }
 
 PENDING = {}
